@@ -27,6 +27,7 @@ def AuthKey.isZero (k : AuthKey) : Bool := allZero k.value && allZero k.id
 inductive Kind where
   | regular   -- primary or sub-DC connection: `clientHandler.OnSession` → `onSession`
   | cdn       -- CDN connection: `cdnClientHandler.OnSession` → `onCDNSession`
+  | migrate   -- not a notification: `migrateToDc` → `c.session.Migrate(cfgDC)` (USER_MIGRATE / `MigrateTo`)
   deriving DecidableEq, Repr
 
 /-- Behaviour of the session storage during one notification. -/
@@ -110,10 +111,18 @@ def onSession (s : St) (n : Notif) : St × Res :=
 def onCDNSession (s : St) (n : Notif) : St × Res :=
   ({ s with cdnSessions := insertDC s.cdnSessions (sessOf n) }, .ok)
 
+/-- `crypto.AuthKey{}`. -/
+def zeroAuthKey : AuthKey := ⟨List.replicate 256 0, List.replicate 8 0⟩
+
+/-- `pool.SyncSession.Migrate`: new DC, key and salt zeroed. -/
+def migrate (s : St) (n : Notif) : St × Res :=
+  ({ s with session := ⟨n.cfgDC, zeroAuthKey, 0⟩ }, .ok)
+
 def step (s : St) (n : Notif) : St × Res :=
   match n.kind with
   | .regular => onSession s n
   | .cdn => onCDNSession s n
+  | .migrate => migrate s n
 
 def run (s : St) (ns : List Notif) : St := ns.foldl (fun s n => (step s n).1) s
 
